@@ -85,11 +85,18 @@ def _fold(iv: tuple, ignorecase: bool, ascii_only: bool) -> tuple:
 
 def denotation(pattern: str, flags: int, where: str) -> list[tuple] | None:
     """Per-position sets of code points; None = matches nothing; raises if not a plain literal/class sequence."""
+    from . import rxoracle  # noqa: PLC0415
+
     try:
-        parsed = sp.parse(pattern, flags & (re.I | re.A | re.U))
+        parsed = sp.parse(pattern, 0)
     except re.error as err:
         raise AnalysisError(f"{where}: pattern {pattern!r} does not compile: {err}") from err
-    gflags = parsed.state.flags
+    inline = parsed.state.flags  # global inline flags, in the standard library's numbering
+    g_ic = bool(flags & rxoracle.I) or bool(inline & re.I)
+    g_asc = bool(flags & rxoracle.A) or bool(inline & re.A)
+    # the `regex` module ignores a *scoped* ASCII flag for case folding ((?ai:k) still matches U+212A there);
+    # the standard library honours it
+    scoped_ascii_counts = rxoracle.ENGINE == "re"
 
     def walk(items: list, ic: bool, asc: bool) -> list[tuple] | None:
         out: list[tuple] = []
@@ -108,7 +115,8 @@ def denotation(pattern: str, flags: int, where: str) -> list[tuple] | None:
                 out.append(_fold(tuple(iv), ic, asc))
             elif op is sc.SUBPATTERN:
                 _g, add, dele, sub = av
-                sub_out = walk(list(sub.data), (ic or bool(add & re.I)) and not dele & re.I, (asc or bool(add & re.A)) and not dele & re.A)
+                sub_asc = (asc or (scoped_ascii_counts and bool(add & re.A))) and not (scoped_ascii_counts and dele & re.A)
+                sub_out = walk(list(sub.data), (ic or bool(add & re.I)) and not dele & re.I, sub_asc)
                 if sub_out is None:
                     return None
                 out.extend(sub_out)
@@ -118,7 +126,7 @@ def denotation(pattern: str, flags: int, where: str) -> list[tuple] | None:
                 raise AnalysisError(f"{where}: {op} in {pattern!r} is outside the terminal model")
         return out
 
-    return walk(list(parsed.data), bool(gflags & re.I), bool(gflags & re.A))
+    return walk(list(parsed.data), g_ic, g_asc)
 
 
 def _patterns_of(obj: object) -> list[Obj]:
